@@ -410,10 +410,11 @@ def intHex32 (i : Int) : Bytes := hexU ((i % 4294967296).toNat)
 def intDecGrouped (i : Int) : Bytes :=
   if i < 0 then [45] ++ groupThousands (decU (-i).toNat) else groupThousands (decU i.toNat)
 
+/- `sectors * SECTOR_BYTES` is int × unsigned int: the product is unsigned -/
 def freeLine (files : Int) (sectors : Int) (desc : String) : Bytes :=
   padLeft 2 48 (intDecGrouped files) ++ strBytes " Files " ++
   padLeft 3 48 (groupThousands (intHex32 sectors)) ++ strBytes " Sectors " ++
-  padLeft 7 32 (intDecGrouped (((sectors * 256 + 2147483648) % 4294967296) - 2147483648)) ++ strBytes " Bytes " ++ strBytes desc ++ [10]
+  padLeft 7 32 (intDecGrouped ((sectors * 256) % 4294967296)) ++ strBytes " Bytes " ++ strBytes desc ++ [10]
 
 /-- `sectors_used` of cmd_free.cc -/
 def sectorsUsed (c : Catalog) : Nat :=
@@ -624,7 +625,7 @@ def cmdExtractUnused (env : Env) (args : List Bytes) : CmdRes :=
   if env.ctx.vol.subvol.isSome then failErr
   else match args with
   | [_, a] =>
-    if a.isEmpty then .abort {} "extract-unused: dest_dir.back() on an empty string"
+    if a.isEmpty then failErr
     else
     let dest := destDir a
     let surface := env.ctx.vol.surface
@@ -681,7 +682,7 @@ def extractLoop (dest : Bytes) (ctxDir : Nat) (data : Media) : List Entry → Li
 def cmdExtractFiles (env : Env) (args : List Bytes) : CmdRes :=
   match args with
   | [_, a] =>
-    if a.isEmpty then .abort {} "extract-files: dest_dir.back() on an empty string"
+    if a.isEmpty then failErr
     else
     match env.mount env.ctx.vol with
     | .fail => failErr
@@ -712,7 +713,7 @@ def cmdShowTitles (env : Env) (args : List Bytes) : CmdRes :=
   | none => failErr
   | some ds =>
     let rec go : List Nat → Bool → Bytes → CmdRes
-      | [], ok, out => .done ok { out := out }
+      | [], ok, out => .done ok { out := out, err := !ok }     -- each failure is reported on stderr
       | d :: rest, ok, out =>
         match showTitle env d with
         | (some r, o, _) => go rest (ok && r) (out ++ o)
